@@ -13,6 +13,7 @@ package props
 import (
 	"bytes"
 	"fmt"
+	"io"
 	"math"
 	"math/rand/v2"
 	"sort"
@@ -21,6 +22,7 @@ import (
 	"seehuhn.de/go/postscript/afm"
 	"seehuhn.de/go/postscript/funit"
 
+	"verif/harness/mon"
 	"verif/harness/ref"
 	"verif/harness/rt"
 )
@@ -222,7 +224,7 @@ func runC15(r *rt.Runner) {
 				return
 			}
 			text1 := append([]byte(nil), buf.Bytes()...)
-			m1, err := afm.Read(bytes.NewReader(text1))
+			m1, err := afm.Read(afmSource(rng, text1))
 			if err != nil {
 				c.Violation("model|read-error", fmt.Sprintf("Read(Write(M)) failed: %v\n%s", err, head(text1, 1500)), "")
 			} else if d := compareMetrics(m, m1, -1, true); len(d) > 0 {
@@ -231,7 +233,7 @@ func runC15(r *rt.Runner) {
 			c.Count("model round trips")
 			// clause 2
 			text2 := ref.WriteAFM(rng, toAFMModel(rng, m))
-			m2, err := afm.Read(bytes.NewReader(text2))
+			m2, err := afm.Read(afmSource(rng, text2))
 			if err != nil {
 				c.Violation("layout|read-error", fmt.Sprintf("reading the independently laid out file failed: %v\n%s", err, head(text2, 1500)), "")
 			} else if d := compareMetrics(m, m2, -1, true); len(d) > 0 {
@@ -385,8 +387,33 @@ func genAcceptedAFM(rng *rand.Rand) []byte {
 		case 3:
 			out = append(out, "KPX onlythree fields", l)
 			continue
+		case 4, 5, 6:
+			// a header keyword that occurs twice, with different texts
+			if f := strings.Fields(l); len(f) >= 2 {
+				switch f[0] {
+				case "Notice", "Version", "FullName", "FontName", "Comment", "FamilyName", "Weight", "EncodingScheme":
+					out = append(out, l, f[0]+" second "+f[0]+" line "+fmt.Sprint(rng.IntN(100)))
+					continue
+				}
+			}
 		}
 		out = append(out, l)
 	}
 	return []byte(strings.Join(out, "\n"))
+}
+
+// afmSource hands the text to the reader through one of several kinds of
+// source: a reader at its start, a seekable reader positioned behind another
+// AFM text, a stream delivered in chunks.
+func afmSource(rng *rand.Rand, text []byte) io.Reader {
+	switch rng.IntN(5) {
+	case 0:
+		prefix := []byte("StartFontMetrics 4.1\nFontName Other\nNotice other file\nStartCharMetrics 1\nC 65 ; WX 999 ; N OtherGlyph ; B 1 2 3 4 ;\nEndCharMetrics\nStartKernData\nStartKernPairs 1\nKPX OtherGlyph OtherGlyph -7\nEndKernPairs\nEndKernData\nEndFontMetrics\n")
+		br := bytes.NewReader(append(append([]byte(nil), prefix...), text...))
+		br.Seek(int64(len(prefix)), io.SeekStart)
+		return br
+	case 1:
+		return &mon.PlanReader{Data: text, Chunks: randChunks(rng)}
+	}
+	return bytes.NewReader(text)
 }
